@@ -148,7 +148,7 @@ pub fn property() -> Property {
         exh_count: no_exh_count,
         exh_case: no_exh_case,
         bytes_case: None,
-        quick_cases: 60_000,
+        quick_cases: 200_000,
         thorough_cases: 1_500_000,
         max_tape: 4096,
     }
